@@ -12,6 +12,7 @@ import (
 
 	"k8s.io/apimachinery/pkg/apis/meta/v1/unstructured"
 	"k8s.io/apimachinery/pkg/types"
+	"sigs.k8s.io/controller-runtime/pkg/reconcile"
 
 	"github.com/crossplane/crossplane/verifsim/kit"
 	"github.com/crossplane/crossplane/verifsim/runner"
@@ -64,6 +65,7 @@ type claim struct {
 	xrworld.ClaimSpec
 	nested map[string]any
 	user   string
+	userEN bool // the user (not the XR side) put the external name on the claim
 }
 
 func (prop) Run(t *testing.T, s *sim.Sim, res *runner.Result) {
@@ -115,6 +117,11 @@ func (prop) Run(t *testing.T, s *sim.Sim, res *runner.Result) {
 				}
 			}
 			w.Store.OnLog = append(w.Store.OnLog, st.onLog)
+			w.OnClaimDone = func(key types.NamespacedName, tk *sim.Task, startSeq int, r reconcile.Result, err error) {
+				if err == nil && tk.Normal {
+					st.judgeExternalNameReachedClaim(key, tk, startSeq)
+				}
+			}
 			res.Counters[map[bool]string{true: "syncer-ssa", false: "syncer-csa"}[st.ssa]]++
 		},
 		Env: func(w *xrworld.W, wl *xrworld.Workload) []sim.Action {
@@ -149,6 +156,9 @@ func (st *state) mutate(c *claim, tp *sim.Tape) {
 	c.user = []string{"", "u1", "u2"}[tp.Next(3)]
 	c.Labels = map[string]string{"team": []string{"a", "b"}[tp.Next(2)]}
 	c.Annotations = map[string]string{"note": []string{"x", "y"}[tp.Next(2)]}
+	if tp.Next(4) == 0 {
+		c.Annotations = map[string]string{} // no unreserved annotation at all
+	}
 	if tp.Next(2) == 1 {
 		c.Labels["app.kubernetes.io/name"] = "reserved"
 		c.Annotations["kubectl.kubernetes.io/last-applied-configuration"] = "{}"
@@ -218,6 +228,11 @@ func (st *state) apply(c *claim, u *unstructured.Unstructured) {
 	for _, k := range []string{"note", "kubectl.kubernetes.io/last-applied-configuration", "foo.k8s.io/y"} {
 		delete(as, k)
 	}
+	// an external name the user had given the claim and now takes away again
+	if _, wants := c.Annotations["crossplane.io/external-name"]; !wants && c.userEN {
+		delete(as, "crossplane.io/external-name")
+	}
+	_, c.userEN = c.Annotations["crossplane.io/external-name"]
 	for k, v := range c.Annotations {
 		as[k] = v
 	}
@@ -232,6 +247,71 @@ func (st *state) edit(c *claim, tp *sim.Tape) {
 	}
 	st.apply(c, u)
 	_ = st.w.Direct.Update(context.Background(), u)
+}
+
+// judgeExternalNameReachedClaim: a reconcile that ran to the end without error
+// leaves the claim carrying the external name its XR had when the reconcile
+// read it (the XR's external name reaches the claim).
+func (st *state) judgeExternalNameReachedClaim(key types.NamespacedName, tk *sim.Task, startSeq int) {
+	w := st.w
+	var xrSeen, claimLeft map[string]any
+	faulted := len(tk.FaultSteps) > 0
+	for _, e := range w.Store.Log[startSeq:] {
+		if e.TaskID != tk.ID || e.Err != nil || e.Injected != "" || e.DryRun || e.After == nil {
+			continue
+		}
+		// the XR as this reconcile first read it (a name the XR side records
+		// later is copied by the next reconcile)
+		if e.Key.Kind == xrworld.XRGVK.Kind && e.Key.Group == xrworld.XRGVK.Group && e.Read && xrSeen == nil {
+			xrSeen = e.After
+		}
+		if e.Key.Kind == xrworld.ClaimGVK.Kind && e.Key.Group == xrworld.ClaimGVK.Group && e.Key.Name == key.Name && e.Key.NS == key.Namespace {
+			claimLeft = e.After
+		}
+	}
+	if xrSeen == nil || claimLeft == nil || faulted {
+		return
+	}
+	// a user edit of the claim or an XR-side change of the name while the
+	// reconcile ran leaves nothing definite to compare
+	for _, e := range w.Store.Log[startSeq:] {
+		if e.TaskID == tk.ID || e.Read || e.Err != nil || e.Injected != "" {
+			continue
+		}
+		if (e.Key.Kind == xrworld.ClaimGVK.Kind && e.Key.Name == key.Name && e.Key.NS == key.Namespace) ||
+			(e.Key.Kind == xrworld.XRGVK.Kind && e.Key.Name == (&unstructured.Unstructured{Object: xrSeen}).GetName() && e.Actor == "user") {
+			return
+		}
+	}
+	if (&unstructured.Unstructured{Object: claimLeft}).GetDeletionTimestamp() != nil {
+		return
+	}
+	// only judged when this reconcile synced (it wrote the XR or found nothing to write and updated the claim's status)
+	xen := (&unstructured.Unstructured{Object: xrSeen}).GetAnnotations()["crossplane.io/external-name"]
+	if xen == "" {
+		return
+	}
+	cur := w.Store.Peek(simapi.ObjKey{Group: xrworld.ClaimGVK.Group, Kind: xrworld.ClaimGVK.Kind, NS: key.Namespace, Name: key.Name})
+	if cur == nil {
+		return
+	}
+	bound := false
+	for _, e := range w.Store.Log[startSeq:] {
+		if e.TaskID == tk.ID && !e.Read && e.Err == nil && e.Key.Kind == xrworld.ClaimGVK.Kind && e.Verb == "update-status" {
+			bound = true
+		}
+	}
+	if !bound {
+		return
+	}
+	if cen := (&unstructured.Unstructured{Object: claimLeft}).GetAnnotations()["crossplane.io/external-name"]; cen != xen {
+		// the status write answers with the stored object: the annotation must have been persisted by then
+		if now := (&unstructured.Unstructured{Object: cur}).GetAnnotations()["crossplane.io/external-name"]; now != xen {
+			w.S.Violate("C07/xr-external-name-not-on-claim", fmt.Sprintf("claim %s finished a reconcile that saw its XR with external name %q, but the claim carries %q", key, xen, now))
+			return
+		}
+	}
+	w.S.Probe("external-name-reached-claim")
 }
 
 func specOf(m map[string]any) map[string]any {
